@@ -403,11 +403,10 @@ func (tx *Transaction) AddRequestHeader(key string, value string) {
 		//   cookie-string = cookie-pair *( ";" SP cookie-pair )
 		//
 		// There is no URL Decode performed no the cookies
-		values := cookies.ParseCookies(value)
-		for k, vr := range values {
-			for _, v := range vr {
-				tx.variables.requestCookies.Add(k, v)
-			}
+		// in the order of the header: which of two names that differ only in letter case comes
+		// first in REQUEST_COOKIES must not depend on Go's random map iteration order
+		for _, kv := range cookies.ParseCookiePairs(value) {
+			tx.variables.requestCookies.Add(kv[0], kv[1])
 		}
 	}
 }
